@@ -129,13 +129,6 @@ theorem evmBalance_eq_objOrNew (s : St) (a : Addr) : (objOrNew s a).bal = evmBal
   unfold suicide; split <;> rfl
 @[simp] theorem createAccount_w (s : St) (a : Addr) : (createAccount s a).w = s.w := by
   unfold createAccount; split <;> rfl
-@[simp] theorem markDirty_w (s : St) (a : Addr) : (markDirty s a).w = s.w := by
-  unfold markDirty; split <;> rfl
-@[simp] theorem markAll_w (s : St) (l : List Addr) : (markAll s l).w = s.w := by
-  unfold markAll
-  induction l generalizing s with
-  | nil => rfl
-  | cons h t ih => simp [List.foldl_cons, ih]
 @[simp] theorem transfer_w (s : St) (x y : Addr) (v : Int) : (transfer s x y v).w = s.w := by
   simp [transfer]
 
@@ -181,12 +174,6 @@ theorem suicide_frame (s : St) (c a : Addr) (h : a ≠ c) :
 theorem createAccount_frame (s : St) (c a : Addr) (h : a ≠ c) :
     alookup a (createAccount s c).cache = alookup a s.cache := by
   unfold createAccount; split <;> rw [alookup_putObj_ne _ _ _ _ h]
-theorem markDirty_frame (s : St) (c a : Addr) (h : a ≠ c) :
-    alookup a (markDirty s c).cache = alookup a s.cache := by
-  unfold markDirty; split
-  · rw [alookup_putObj_ne _ _ _ _ h]
-  · rfl
-
 theorem applyEff_frame (s s' : St) (e : Eff) (a : Addr) (h : e.addr ≠ a) (he : applyEff s e = some s') :
     alookup a s'.cache = alookup a s.cache := by
   have h' : a ≠ e.addr := fun x => h x.symm
@@ -216,9 +203,6 @@ theorem applyEffs_frame (s s' : St) (l : List Eff) (a : Addr) (h : ∀ e ∈ l, 
 
 def finW (w : World) (c : List (Addr × Obj)) : World := c.foldl finaliseObj w
 
-/-- the object is dropped by `Finalise` without its balance being written -/
-def gone (o : Obj) : Bool := o.suicided || (o.dirty && isEmpty o)
-
 theorem finalise_w (s : St) : (finalise s).w = finW s.w s.cache := rfl
 @[simp] theorem finalise_cache (s : St) : (finalise s).cache = [] := rfl
 
@@ -233,16 +217,15 @@ theorem finW_pool (w : World) (c : List (Addr × Obj)) : (finW w c).pool = w.poo
   | nil => rfl
   | cons h t ih => rw [List.foldl_cons, ih, finaliseObj_pool]
 
-theorem removeAccount_bal_ne (w : World) (k a : Addr) (o : Obj) (h : a ≠ k) :
-    bal (removeAccount w k o).bal a = bal w.bal a := by
+theorem removeAccount_bal_ne (w : World) (k a : Addr) (h : a ≠ k) :
+    bal (removeAccount w k).bal a = bal w.bal a := by
   unfold removeAccount
   simp only
   split
   · rfl
   · exact bal_setBal_ne _ _ _ _ h
 
-theorem removeAccount_bal_self (w : World) (a : Addr) (o : Obj) :
-    bal (removeAccount w a o).bal a = o.bal := by
+theorem removeAccount_bal_self (w : World) (a : Addr) : bal (removeAccount w a).bal a = 0 := by
   unfold removeAccount
   simp only
   split
@@ -252,19 +235,19 @@ theorem removeAccount_bal_self (w : World) (a : Addr) (o : Obj) :
 theorem finaliseObj_bal_ne (w : World) (p : Addr × Obj) (a : Addr) (h : a ≠ p.1) :
     bal (finaliseObj w p).bal a = bal w.bal a := by
   unfold finaliseObj; split
-  · exact removeAccount_bal_ne w p.1 a p.2 h
+  · exact removeAccount_bal_ne w p.1 a h
   · split
     · simp [setAccount, bal_setBal_ne _ _ _ _ h]
     · rfl
 
-/-- `Finalise` leaves the working balance of every dropped or dirty object in the record -/
+/-- `Finalise` leaves a zero record for a dropped object and the working balance of a dirty one -/
 theorem finaliseObj_bal_self (w : World) (a : Addr) (o : Obj) :
     bal (finaliseObj w (a, o)).bal a =
-      if gone o then o.bal else if o.dirty then o.bal else bal w.bal a := by
-  unfold finaliseObj gone
+      if gone o then 0 else if o.dirty then o.bal else bal w.bal a := by
+  unfold finaliseObj
   simp only
   split
-  · exact removeAccount_bal_self w a o
+  · exact removeAccount_bal_self w a
   · split
     · simp [setAccount, bal_setBal_self]
     · rfl
@@ -291,7 +274,7 @@ theorem finaliseObj_keeper_self (w : World) (a : Addr) (o : Obj) :
 theorem finW_bal (w : World) (c : List (Addr × Obj)) (a : Addr) (hn : (akeys c).Nodup) :
     bal (finW w c).bal a =
       match alookup a c with
-      | some o => if gone o then o.bal else if o.dirty then o.bal else bal w.bal a
+      | some o => if gone o then 0 else if o.dirty then o.bal else bal w.bal a
       | none => bal w.bal a := by
   induction c generalizing w with
   | nil => rfl
@@ -351,15 +334,6 @@ theorem wf_suicide (s : St) (a : Addr) (h : WF s) : WF (suicide s a) := by
   · exact wf_putObj _ _ _ h
 theorem wf_createAccount (s : St) (a : Addr) (h : WF s) : WF (createAccount s a) := by
   unfold createAccount; split <;> exact wf_putObj _ _ _ h
-theorem wf_markDirty (s : St) (a : Addr) (h : WF s) : WF (markDirty s a) := by
-  unfold markDirty; split
-  · exact wf_putObj _ _ _ h
-  · exact h
-theorem wf_markAll (s : St) (l : List Addr) (h : WF s) : WF (markAll s l) := by
-  unfold markAll
-  induction l generalizing s with
-  | nil => exact h
-  | cons x t ih => exact ih _ (wf_markDirty s x h)
 theorem wf_transfer (s : St) (x y : Addr) (v : Int) (h : WF s) : WF (transfer s x y v) :=
   wf_addBalance _ _ _ (wf_subBalance _ _ _ h)
 theorem wf_applyEff (s s' : St) (e : Eff) (h : WF s) (he : applyEff s e = some s') : WF s' := by
@@ -391,10 +365,9 @@ theorem evmCall_cases (s : St) (tx : Tx) (to : Addr) (gas : Nat) (vm : VmOut) (s
     ∨ (s2 = s ∧ gl = gas ∧ f = false ∧ evmExist s to = false ∧ tx.value = 0)
     ∨ (s2 = transfer (callPrep s to) tx.sender to tx.value ∧ gl = gas ∧ f = false ∧
         evmCode (transfer (callPrep s to) tx.sender to tx.value) to = false)
-    ∨ (s2 = markAll s ((if tx.value ≠ 0 then [tx.sender, to] else []) ++ vm.touched) ∧ gl = vm.gasLeft ∧ f = true ∧
-        vm.failed = true)
+    ∨ (s2 = s ∧ gl = vm.gasLeft ∧ f = true ∧ vm.failed = true)
     ∨ (∃ s3, applyEffs (transfer (callPrep s to) tx.sender to tx.value) vm.effs = some s3 ∧
-        s2 = markAll s3 vm.touched ∧ gl = vm.gasLeft ∧ f = false ∧ vm.failed = false) := by
+        s3 = s2 ∧ gl = vm.gasLeft ∧ f = false ∧ vm.failed = false) := by
   unfold evmCall at h
   by_cases h1 : tx.value ≠ 0 ∧ evmBalance s tx.sender < tx.value
   · rw [if_pos h1] at h
@@ -421,7 +394,7 @@ theorem evmCall_cases (s : St) (tx : Tx) (to : Addr) (gas : Nat) (vm : VmOut) (s
           | some s3 =>
             rw [he] at h
             simp only [Option.some.injEq, Prod.mk.injEq] at h
-            refine Or.inr (Or.inr (Or.inr (Or.inr ⟨s3, rfl, h.1.symm, h.2.1.symm, h.2.2.symm, ?_⟩)))
+            refine Or.inr (Or.inr (Or.inr (Or.inr ⟨s3, rfl, h.1, h.2.1.symm, h.2.2.symm, ?_⟩)))
             simpa using h4
 
 /-- the four ways `evmCreate` returns -/
@@ -429,11 +402,9 @@ theorem evmCreate_cases (env : Env) (s : St) (tx : Tx) (vm : VmOut) (gas : Nat) 
     (h : evmCreate env s tx vm gas = some (s2, gl, f)) :
     (s2 = s ∧ gl = gas ∧ f = true ∧ evmBalance s tx.sender < tx.value)
     ∨ (s2 = setNonce s tx.sender (evmNonce s tx.sender + 1) ∧ gl = 0 ∧ f = true)
-    ∨ (s2 = markAll (setNonce s tx.sender (evmNonce s tx.sender + 1))
-              ((if tx.value ≠ 0 then [tx.sender, env.newAddr] else [env.newAddr]) ++ vm.touched) ∧
-        gl = vm.gasLeft ∧ f = true ∧ vm.failed = true)
+    ∨ (s2 = setNonce s tx.sender (evmNonce s tx.sender + 1) ∧ gl = vm.gasLeft ∧ f = true ∧ vm.failed = true)
     ∨ (∃ s3, applyEffs (createPrep (setNonce s tx.sender (evmNonce s tx.sender + 1)) tx env.newAddr) vm.effs = some s3 ∧
-        s2 = markAll (if vm.retCode = true then setCode s3 env.newAddr else s3) vm.touched ∧
+        s2 = (if vm.retCode = true then setCode s3 env.newAddr else s3) ∧
         gl = vm.gasLeft ∧ f = false ∧ vm.failed = false ∧
         evmNonce (setNonce s tx.sender (evmNonce s tx.sender + 1)) env.newAddr = 0 ∧
         evmCode (setNonce s tx.sender (evmNonce s tx.sender + 1)) env.newAddr = false) := by
@@ -617,23 +588,6 @@ theorem holds_add_self (s : St) (a : Addr) (b v : Int) (n : Nat) (h : Holds s a 
   · by_cases he : isEmpty o = true <;> simp [hv, he, hb, hn, hd, hs]
   · simp [hv, hb, hn, hs]
 
-theorem holds_markDirty (s : St) (a c : Addr) (b : Int) (n : Nat) (h : Holds s a b n) :
-    Holds (markDirty s c) a b n := by
-  by_cases hc : a = c
-  · subst hc
-    obtain ⟨o, h1, hb, hn, hd, hs⟩ := h
-    unfold markDirty
-    rw [peek_of_cache s a o h1]
-    exact ⟨{ o with dirty := true }, alookup_putObj_self _ _ _, hb, hn, rfl, hs⟩
-  · exact holds_congr _ _ _ _ _ (markDirty_frame s c a hc) h
-
-theorem holds_markAll (s : St) (a : Addr) (l : List Addr) (b : Int) (n : Nat) (h : Holds s a b n) :
-    Holds (markAll s l) a b n := by
-  unfold markAll
-  induction l generalizing s with
-  | nil => exact h
-  | cons x t ih => exact ih _ (holds_markDirty s a x b n h)
-
 theorem holds_setNonce_self (s : St) (a : Addr) (o : Obj) (k : Nat) (h : alookup a s.cache = some o)
     (hs : o.suicided = false) : Holds (setNonce s a k) a o.bal k := by
   rw [setNonce_eq, objOrNew_of_cache s a o h]
@@ -693,11 +647,11 @@ theorem evmCall_sender (s : St) (tx : Tx) (t : Addr) (gas : Nat) (vm : VmOut) (s
   · have := transfer_holds_src (callPrep s t) tx.sender t b tx.value n hat
       (holds_congr _ _ _ _ _ (callPrep_frame s t tx.sender hat) h)
     simpa using this
-  · simpa using holds_markAll s tx.sender _ b n h
+  · simpa using h
   · have h1 := transfer_holds_src (callPrep s t) tx.sender t b tx.value n hat
       (holds_congr _ _ _ _ _ (callPrep_frame s t tx.sender hat) h)
     have h2 := holds_congr _ s3 _ _ _ (applyEffs_frame _ s3 vm.effs tx.sender heff he) h1
-    simpa using holds_markAll s3 tx.sender vm.touched _ n h2
+    simpa using h2
 
 theorem createPrep_holds_src (s : St) (tx : Tx) (a : Addr) (b : Int) (n : Nat) (hat : tx.sender ≠ a)
     (h : Holds s tx.sender b n) : Holds (createPrep s tx a) tx.sender (b - tx.value) n := by
@@ -719,14 +673,14 @@ theorem evmCreate_sender (env : Env) (s : St) (tx : Tx) (vm : VmOut) (gas : Nat)
     ⟨-, -, -, hlt⟩ | ⟨rfl, -, rfl⟩ | ⟨rfl, -, rfl, -⟩ | ⟨s3, he, rfl, -, rfl, -, -, -⟩
   · rw [evmBalance_of_cache s _ o ho] at hlt; exact absurd hlt hbal
   · simpa using h0
-  · simpa using holds_markAll _ tx.sender _ _ _ h0
+  · simpa using h0
   · have h1 := createPrep_holds_src _ tx env.newAddr _ _ hnew h0
     have h2 := holds_congr _ s3 _ _ _ (applyEffs_frame _ s3 vm.effs tx.sender heff he) h1
     have h3 : Holds (if vm.retCode = true then setCode s3 env.newAddr else s3) tx.sender (o.bal - tx.value) (o.nonce + 1) := by
       split
       · exact holds_congr _ _ _ _ _ (setCode_frame s3 env.newAddr tx.sender hnew) h2
       · exact h2
-    simpa using holds_markAll _ tx.sender vm.touched _ _ h3
+    simpa using h3
 theorem validate_none_value (env : Env) (w : World) (tx : Tx) (h : validate env w tx = none) :
     0 ≤ tx.value := by
   by_cases hv : tx.value < 0
@@ -767,8 +721,8 @@ theorem wf_evmCall (s : St) (tx : Tx) (t : Addr) (gas : Nat) (vm : VmOut) (s2 : 
   · exact hw
   · exact hw
   · exact wf_transfer _ _ _ _ (wf_callPrep _ _ hw)
-  · exact wf_markAll _ _ hw
-  · exact wf_markAll _ _ (wf_applyEffs _ _ _ (wf_transfer _ _ _ _ (wf_callPrep _ _ hw)) he)
+  · exact hw
+  · exact wf_applyEffs _ _ _ (wf_transfer _ _ _ _ (wf_callPrep _ _ hw)) he
 
 theorem evmCreate_w (env : Env) (s : St) (tx : Tx) (vm : VmOut) (gas : Nat) (s2 : St) (gl : Nat) (f : Bool)
     (hr : evmCreate env s tx vm gas = some (s2, gl, f)) : s2.w = s.w := by
@@ -787,9 +741,8 @@ theorem wf_evmCreate (env : Env) (s : St) (tx : Tx) (vm : VmOut) (gas : Nat) (s2
     ⟨rfl, -⟩ | ⟨rfl, -⟩ | ⟨rfl, -⟩ | ⟨s3, he, rfl, -⟩
   · exact hw
   · exact wf_setNonce _ _ _ hw
-  · exact wf_markAll _ _ (wf_setNonce _ _ _ hw)
+  · exact wf_setNonce _ _ _ hw
   · have h3 := wf_applyEffs _ _ _ (wf_createPrep _ tx env.newAddr (wf_setNonce _ _ _ hw)) he
-    apply wf_markAll
     split
     · exact wf_setCode _ _ h3
     · exact h3
@@ -926,28 +879,6 @@ theorem tracks_createAccount_self (s : St) (a : Addr) (b : Int) (h : Tracks s a 
     simp [freshObj] at this ⊢
     exact this
 
-theorem tracks_markDirty (s : St) (a c : Addr) (b : Int) (h : Tracks s a b) :
-    Tracks (markDirty s c) a b := by
-  by_cases hc : a = c
-  · subst hc
-    unfold markDirty
-    cases hp : peek s a with
-    | none => simpa using h
-    | some o =>
-      simp only
-      refine Or.inr ⟨_, alookup_putObj_self _ _ _, ?_⟩
-      have := tracks_objOrNew s a b h
-      simp only [objOrNew, hp] at this
-      simp [this.1, this.2.1]
-  · exact tracks_congr _ _ _ _ (markDirty_frame s c a hc) (markDirty_w s c) h
-
-theorem tracks_markAll (s : St) (a : Addr) (l : List Addr) (b : Int) (h : Tracks s a b) :
-    Tracks (markAll s l) a b := by
-  unfold markAll
-  induction l generalizing s with
-  | nil => exact h
-  | cons x t ih => exact ih _ (tracks_markDirty s a x b h)
-
 theorem tracks_callPrep (s : St) (a : Addr) (b : Int) (h : Tracks s a b) : Tracks (callPrep s a) a b := by
   unfold callPrep; split
   · exact h
@@ -968,7 +899,10 @@ theorem tracks_finalise (s : St) (a : Addr) (b : Int) (hwf : WF s) (h : Tracks s
   · rw [ho]
     simp only
     by_cases hg : gone o = true
-    · simp [hg, hob]
+    · simp only [hg, if_true]
+      unfold gone isEmpty at hg
+      simp only [hs, Bool.false_or, Bool.and_eq_true, beq_iff_eq, Bool.not_eq_true'] at hg
+      omega
     · simp only [hg, Bool.false_eq_true, if_false]
       by_cases hdd : o.dirty = true
       · simp [hdd, hob]
@@ -985,10 +919,10 @@ theorem evmCall_recipient (s : St) (tx : Tx) (t : Addr) (gas : Nat) (vm : VmOut)
   · simpa using h
   · simpa [hv] using h
   · simpa using tracks_transfer_dst (callPrep s t) tx.sender t b tx.value hat (tracks_callPrep s t b h)
-  · simpa using tracks_markAll s t _ b h
+  · simpa using h
   · have h1 := tracks_transfer_dst (callPrep s t) tx.sender t b tx.value hat (tracks_callPrep s t b h)
     have h2 := tracks_congr _ s3 _ _ (applyEffs_frame _ s3 vm.effs t heff he) (applyEffs_w _ _ _ he) h1
-    simpa using tracks_markAll s3 t vm.touched _ h2
+    simpa using h2
 
 /-- the created contract after the run of the init code -/
 theorem evmCreate_recipient (env : Env) (s : St) (tx : Tx) (vm : VmOut) (gas : Nat) (s2 : St) (gl : Nat) (f : Bool)
@@ -1002,7 +936,7 @@ theorem evmCreate_recipient (env : Env) (s : St) (tx : Tx) (vm : VmOut) (gas : N
     ⟨rfl, -, rfl, -⟩ | ⟨rfl, -, rfl⟩ | ⟨rfl, -, rfl, -⟩ | ⟨s3, he, rfl, -, rfl, -, -, -⟩
   · simpa using h
   · simpa using h0
-  · simpa using tracks_markAll _ env.newAddr _ b h0
+  · simpa using h0
   · have h1 : Tracks (createPrep (setNonce s tx.sender (evmNonce s tx.sender + 1)) tx env.newAddr) env.newAddr (b + tx.value) := by
       unfold createPrep
       exact tracks_transfer_dst _ tx.sender _ b tx.value hat
@@ -1012,7 +946,7 @@ theorem evmCreate_recipient (env : Env) (s : St) (tx : Tx) (vm : VmOut) (gas : N
       split
       · exact tracks_setCode_self s3 _ _ h2
       · exact h2
-    simpa using tracks_markAll _ env.newAddr vm.touched _ h3
+    simpa using h3
 
 /-- the recipient (of a call: `tx.to`; of a creation: the new contract) when `TransitionDb` returns -/
 theorem transitionDb_recipient (env : Env) (s s1 : St) (tx : Tx) (vm : VmOut) (er : ExecResult) (t : Addr)
@@ -1053,9 +987,8 @@ theorem evmCall_bystander (s : St) (tx : Tx) (t : Addr) (gas : Nat) (vm : VmOut)
   · exact h
   · exact h
   · exact hpre
-  · exact tracks_markAll s c _ b h
-  · exact tracks_markAll s3 c _ b
-      (tracks_congr _ s3 _ _ (applyEffs_frame _ s3 vm.effs c heff he) (applyEffs_w _ _ _ he) hpre)
+  · exact h
+  · exact tracks_congr _ s3 _ _ (applyEffs_frame _ s3 vm.effs c heff he) (applyEffs_w _ _ _ he) hpre
 
 theorem evmCreate_bystander (env : Env) (s : St) (tx : Tx) (vm : VmOut) (gas : Nat) (s2 : St) (gl : Nat) (f : Bool)
     (c : Addr) (b : Int) (h : Tracks s c b) (hcs : c ≠ tx.sender) (hct : c ≠ env.newAddr)
@@ -1071,9 +1004,8 @@ theorem evmCreate_bystander (env : Env) (s : St) (tx : Tx) (vm : VmOut) (gas : N
     ⟨rfl, -⟩ | ⟨rfl, -⟩ | ⟨rfl, -⟩ | ⟨s3, he, rfl, -⟩
   · exact h
   · exact h0
-  · exact tracks_markAll _ c _ b h0
+  · exact h0
   · have h2 := tracks_congr _ s3 _ _ (applyEffs_frame _ s3 vm.effs c heff he) (applyEffs_w _ _ _ he) hpre
-    apply tracks_markAll
     split
     · exact tracks_congr _ _ _ _ (setCode_frame s3 env.newAddr c hct) (setCode_w _ _) h2
     · exact h2
@@ -1161,22 +1093,6 @@ theorem pend_setNonce (s : St) (a : Addr) (k : Nat) : pend (setNonce s a k) = pe
 theorem pend_setCode (s : St) (a : Addr) : pend (setCode s a) = pend s := by
   rw [setCode_eq, pend_putObj, ← evmBalance_eq_objOrNew]; simp [codeF]
 
-theorem pend_markDirty (s : St) (a : Addr) : pend (markDirty s a) = pend s := by
-  unfold markDirty
-  cases hp : peek s a with
-  | none => rfl
-  | some o =>
-    simp only
-    rw [pend_putObj]
-    have : evmBalance s a = o.bal := by simp [evmBalance, hp]
-    simp [this]
-
-theorem pend_markAll (s : St) (l : List Addr) : pend (markAll s l) = pend s := by
-  unfold markAll
-  induction l generalizing s with
-  | nil => rfl
-  | cons x t ih => rw [List.foldl_cons, ih, pend_markDirty]
-
 theorem pend_createAccount (s : St) (a : Addr) : pend (createAccount s a) = pend s := by
   unfold createAccount
   cases hp : peek s a with
@@ -1256,8 +1172,8 @@ theorem pend_evmCall (s : St) (tx : Tx) (t : Addr) (gas : Nat) (vm : VmOut) (s2 
   · rfl
   · rfl
   · rw [pend_transfer, pend_callPrep]
-  · rw [pend_markAll]
-  · rw [pend_markAll, pend_applyEffs _ _ _ he, pend_transfer, pend_callPrep, hz]; omega
+  · rfl
+  · rw [pend_applyEffs _ _ _ he, pend_transfer, pend_callPrep, hz]; omega
 
 theorem pend_evmCreate (env : Env) (s : St) (tx : Tx) (vm : VmOut) (gas : Nat) (s2 : St) (gl : Nat) (f : Bool)
     (hz : vmNet (createPrep (setNonce s tx.sender (evmNonce s tx.sender + 1)) tx env.newAddr) vm.effs = 0)
@@ -1266,9 +1182,8 @@ theorem pend_evmCreate (env : Env) (s : St) (tx : Tx) (vm : VmOut) (gas : Nat) (
     ⟨rfl, -⟩ | ⟨rfl, -⟩ | ⟨rfl, -⟩ | ⟨s3, he, rfl, -⟩
   · rfl
   · rw [pend_setNonce]
-  · rw [pend_markAll, pend_setNonce]
-  · rw [pend_markAll]
-    have h3 : pend s3 = pend s := by
+  · rw [pend_setNonce]
+  · have h3 : pend s3 = pend s := by
       rw [pend_applyEffs _ _ _ he, pend_createPrep, pend_setNonce, hz]; omega
     split
     · rw [pend_setCode, h3]
@@ -1305,7 +1220,7 @@ theorem pend_transitionDb (env : Env) (s s1 : St) (tx : Tx) (vm : VmOut) (er : E
 /-- Σ over the cached objects of what `Finalise` adds to the stored balance -/
 def wsum (w : World) : List (Addr × Obj) → Int
   | [] => 0
-  | p :: t => (if gone p.2 then p.2.bal - bal w.bal p.1 else if p.2.dirty then p.2.bal - bal w.bal p.1 else 0) + wsum w t
+  | p :: t => (if gone p.2 then - bal w.bal p.1 else if p.2.dirty then p.2.bal - bal w.bal p.1 else 0) + wsum w t
 
 theorem wsum_congr (w w' : World) (c : List (Addr × Obj)) (h : ∀ a ∈ akeys c, bal w'.bal a = bal w.bal a) :
     wsum w' c = wsum w c := by
@@ -1316,8 +1231,8 @@ theorem wsum_congr (w w' : World) (c : List (Addr × Obj)) (h : ∀ a ∈ akeys 
     have h2 := ih (fun a ha => h a (by simp [akeys] at ha ⊢; exact Or.inr ha))
     simp only [wsum, h1, h2]
 
-theorem total_removeAccount (w : World) (a : Addr) (o : Obj) :
-    total (removeAccount w a o).bal = total w.bal + (o.bal - bal w.bal a) := by
+theorem total_removeAccount (w : World) (a : Addr) :
+    total (removeAccount w a).bal = total w.bal - bal w.bal a := by
   unfold removeAccount
   simp only
   split
@@ -1326,10 +1241,10 @@ theorem total_removeAccount (w : World) (a : Addr) (o : Obj) :
 
 theorem total_finaliseObj (w : World) (p : Addr × Obj) :
     total (finaliseObj w p).bal = total w.bal +
-      (if gone p.2 then p.2.bal - bal w.bal p.1 else if p.2.dirty then p.2.bal - bal w.bal p.1 else 0) := by
-  unfold finaliseObj gone
+      (if gone p.2 then - bal w.bal p.1 else if p.2.dirty then p.2.bal - bal w.bal p.1 else 0) := by
+  unfold finaliseObj
   split
-  · exact total_removeAccount w p.1 p.2
+  · rw [total_removeAccount]; omega
   · split
     · simp only [setAccount, total_setBal]; omega
     · simp
@@ -1372,26 +1287,27 @@ theorem alookup_of_mem_nodup (c : List (Addr × Obj)) (a : Addr) (o : Obj) (hm :
 
 theorem wsum_eq_pendL (w : World) (c : List (Addr × Obj))
     (h : ∀ p ∈ c, p.2.dirty = false → p.2.bal = bal w.bal p.1) :
-    wsum w c = pendL w c := by
+    wsum w c = pendL w c - burntAt c := by
   induction c with
   | nil => rfl
   | cons hd t ih =>
     have h1 := h hd (by simp)
     have h2 := ih (fun p hp => h p (List.mem_cons_of_mem _ hp))
-    simp only [wsum, pendL, h2]
+    simp only [wsum, pendL, burntAt, h2]
     by_cases hg : gone hd.2 = true
-    · simp [hg]
+    · simp only [hg, if_true]; omega
     · by_cases hd' : hd.2.dirty = true
-      · simp [hg, hd']
+      · simp only [hg, Bool.false_eq_true, if_false, hd', if_true]; omega
       · simp only [hg, Bool.false_eq_true, if_false, hd']
         have := h1 (by simpa using hd')
         omega
 
-/-- `Finalise` moves into the records exactly what the cache held on top of them -/
+/-- `Finalise` moves into the records exactly what the cache held on top of them, except what the
+    dropped objects held: that is gone -/
 theorem total_finalise (s : St) (hwf : WF s) (hs : Mirror s) :
-    total (finalise s).w.bal = total s.w.bal + pend s := by
+    total (finalise s).w.bal = total s.w.bal + pend s - burntAt s.cache := by
   rw [finalise_w, total_finW _ _ hwf, wsum_eq_pendL]
-  · rfl
+  · unfold pend; omega
   · intro p hp hq
     exact hs p.1 p.2 (alookup_of_mem_nodup _ _ _ hp hwf) hq
 
@@ -1451,17 +1367,6 @@ theorem mirror_suicide (s : St) (a : Addr) (h : Mirror s) : Mirror (suicide s a)
 theorem mirror_createAccount (s : St) (a : Addr) (h : Mirror s) : Mirror (createAccount s a) := by
   unfold createAccount; split <;> exact mirror_putObj s a _ h (by simp [freshObj])
 
-theorem mirror_markDirty (s : St) (a : Addr) (h : Mirror s) : Mirror (markDirty s a) := by
-  unfold markDirty; split
-  · exact mirror_putObj s a _ h (by simp)
-  · exact h
-
-theorem mirror_markAll (s : St) (l : List Addr) (h : Mirror s) : Mirror (markAll s l) := by
-  unfold markAll
-  induction l generalizing s with
-  | nil => exact h
-  | cons x t ih => exact ih _ (mirror_markDirty s x h)
-
 theorem mirror_transfer (s : St) (x y : Addr) (v : Int) (h : Mirror s) : Mirror (transfer s x y v) :=
   mirror_addBalance _ _ _ (mirror_subBalance _ _ _ h)
 
@@ -1501,8 +1406,8 @@ theorem mirror_evmCall (s : St) (tx : Tx) (t : Addr) (gas : Nat) (vm : VmOut) (s
   · exact h
   · exact h
   · exact hpre
-  · exact mirror_markAll s _ h
-  · exact mirror_markAll s3 _ (mirror_applyEffs _ s3 vm.effs hpre he)
+  · exact h
+  · exact mirror_applyEffs _ s3 vm.effs hpre he
 
 theorem mirror_evmCreate (env : Env) (s : St) (tx : Tx) (vm : VmOut) (gas : Nat) (s2 : St) (gl : Nat) (f : Bool)
     (h : Mirror s) (hr : evmCreate env s tx vm gas = some (s2, gl, f)) : Mirror s2 := by
@@ -1511,9 +1416,8 @@ theorem mirror_evmCreate (env : Env) (s : St) (tx : Tx) (vm : VmOut) (gas : Nat)
     ⟨rfl, -⟩ | ⟨rfl, -⟩ | ⟨rfl, -⟩ | ⟨s3, he, rfl, -⟩
   · exact h
   · exact h0
-  · exact mirror_markAll _ _ h0
+  · exact h0
   · have h3 := mirror_applyEffs _ s3 vm.effs (mirror_createPrep _ tx env.newAddr h0) he
-    apply mirror_markAll
     split
     · exact mirror_setCode s3 _ h3
     · exact h3
@@ -1532,5 +1436,318 @@ theorem mirror_transitionDb (env : Env) (s s1 : St) (tx : Tx) (vm : VmOut) (er :
     · exact mirror_evmCreate env _ tx vm _ s2 gl f hb hr
     · exact mirror_evmCall _ tx _ _ vm s2 gl f (mirror_setNonce _ _ _ hb) hr
   exact mirror_addBalance s2 _ _ hs2
+
+/-! ## what `Finalise` drops is never negative -/
+
+/-- no cached object is suicided (true until the interpreter runs) -/
+def NoSui (s : St) : Prop := ∀ a o, alookup a s.cache = some o → o.suicided = false
+
+/-- a suicided cached object holds a non-negative balance and is not the sender's -/
+def SuiOk (snd : Addr) (s : St) : Prop :=
+  ∀ a o, alookup a s.cache = some o → o.suicided = true → 0 ≤ o.bal ∧ a ≠ snd
+
+theorem objOrNew_suicided_of (s : St) (a : Addr) (h : alookup a s.cache = none) :
+    (objOrNew s a).suicided = false := by
+  have hp : peek s a = loadAcct s.w a := by simp [peek, h]
+  cases hl : loadAcct s.w a with
+  | some o => simp [objOrNew, hp, hl, (loadAcct_some s.w a o hl).2.2]
+  | none => simp [objOrNew, hp, hl, freshObj]
+
+theorem noSui_objOrNew (s : St) (a : Addr) (h : NoSui s) : (objOrNew s a).suicided = false := by
+  cases hc : alookup a s.cache with
+  | some o => rw [objOrNew_of_cache s a o hc]; exact h a o hc
+  | none => exact objOrNew_suicided_of s a hc
+
+theorem noSui_putObj (s : St) (a : Addr) (o' : Obj) (h : NoSui s) (ho : o'.suicided = false) :
+    NoSui (putObj s a o') := by
+  intro b o hb
+  rw [alookup_putObj] at hb
+  by_cases hba : b = a
+  · simp [hba] at hb; subst hb; exact ho
+  · simp [hba] at hb; exact h b o hb
+
+theorem noSui_subBalance (s : St) (a : Addr) (n : Int) (h : NoSui s) : NoSui (subBalance s a n) := by
+  rw [subBalance_eq]; apply noSui_putObj s a _ h
+  have := noSui_objOrNew s a h
+  unfold subF; split <;> simp [this]
+theorem noSui_addBalance (s : St) (a : Addr) (n : Int) (h : NoSui s) : NoSui (addBalance s a n) := by
+  rw [addBalance_eq]; apply noSui_putObj s a _ h
+  have := noSui_objOrNew s a h
+  unfold addF; split
+  · split <;> simp [this]
+  · simp [this]
+theorem noSui_setNonce (s : St) (a : Addr) (k : Nat) (h : NoSui s) : NoSui (setNonce s a k) := by
+  rw [setNonce_eq]; exact noSui_putObj s a _ h (by simp [nonceF, noSui_objOrNew s a h])
+theorem noSui_createAccount (s : St) (a : Addr) (h : NoSui s) : NoSui (createAccount s a) := by
+  unfold createAccount; split <;> exact noSui_putObj s a _ h (by simp [freshObj])
+theorem noSui_transfer (s : St) (x y : Addr) (v : Int) (h : NoSui s) : NoSui (transfer s x y v) :=
+  noSui_addBalance _ _ _ (noSui_subBalance _ _ _ h)
+theorem noSui_callPrep (s : St) (t : Addr) (h : NoSui s) : NoSui (callPrep s t) := by
+  unfold callPrep; split
+  · exact h
+  · exact noSui_createAccount s t h
+theorem noSui_createPrep (s : St) (tx : Tx) (a : Addr) (h : NoSui s) : NoSui (createPrep s tx a) :=
+  noSui_transfer _ _ _ _ (noSui_setNonce _ _ _ (noSui_createAccount _ _ h))
+theorem noSui_of_empty (s : St) (h : s.cache = []) : NoSui s := by
+  intro a o ha; rw [h] at ha; simp [alookup] at ha
+
+theorem suiOk_of_noSui (snd : Addr) (s : St) (h : NoSui s) : SuiOk snd s := by
+  intro a o ha hs; rw [h a o ha] at hs; simp at hs
+
+theorem suiOk_putObj (snd : Addr) (s : St) (a : Addr) (o' : Obj) (h : SuiOk snd s)
+    (ho : o'.suicided = true → 0 ≤ o'.bal ∧ a ≠ snd) : SuiOk snd (putObj s a o') := by
+  intro b o hb hs
+  rw [alookup_putObj] at hb
+  by_cases hba : b = a
+  · subst hba; simp at hb; subst hb; exact ho hs
+  · simp [hba] at hb; exact h b o hb hs
+
+/-- what `objOrNew` finds: a suicided object is a cached one -/
+theorem suiOk_objOrNew (snd : Addr) (s : St) (a : Addr) (h : SuiOk snd s)
+    (hs : (objOrNew s a).suicided = true) : 0 ≤ (objOrNew s a).bal ∧ a ≠ snd := by
+  cases hc : alookup a s.cache with
+  | some o => rw [objOrNew_of_cache s a o hc] at hs ⊢; exact h a o hc hs
+  | none => rw [objOrNew_suicided_of s a hc] at hs; simp at hs
+
+theorem suiOk_addBalance (snd : Addr) (s : St) (a : Addr) (n : Int) (h : SuiOk snd s) (hn : 0 ≤ n) :
+    SuiOk snd (addBalance s a n) := by
+  rw [addBalance_eq]; apply suiOk_putObj snd s a _ h
+  intro hs
+  unfold addF at hs ⊢
+  by_cases hz : n = 0
+  · by_cases he : isEmpty (objOrNew s a) = true
+    · simp only [hz, he, if_true] at hs ⊢; exact suiOk_objOrNew snd s a h hs
+    · simp only [hz, he, if_true, Bool.false_eq_true, if_false] at hs ⊢; exact suiOk_objOrNew snd s a h hs
+  · simp only [hz, if_false] at hs ⊢
+    have := suiOk_objOrNew snd s a h hs
+    exact ⟨by omega, this.2⟩
+
+theorem suiOk_setCode (snd : Addr) (s : St) (a : Addr) (h : SuiOk snd s) : SuiOk snd (setCode s a) := by
+  rw [setCode_eq]; apply suiOk_putObj snd s a _ h
+  intro hs; exact suiOk_objOrNew snd s a h hs
+
+theorem suiOk_applyEffs (snd : Addr) (s s' : St) (l : List Eff) (h : SuiOk snd s)
+    (hadd : ∀ a n, Eff.add a n ∈ l → 0 ≤ n) (hsnd : Eff.suicide snd ∉ l)
+    (he : applyEffs s l = some s') : SuiOk snd s' := by
+  induction l generalizing s with
+  | nil => simp [applyEffs] at he; subst he; exact h
+  | cons e t ih =>
+    simp only [applyEffs] at he
+    cases h1 : applyEff s e with
+    | none => simp [h1] at he
+    | some s1 =>
+      simp only [h1] at he
+      apply ih s1 _ (fun a n hm => hadd a n (List.mem_cons_of_mem _ hm))
+        (fun hm => hsnd (List.mem_cons_of_mem _ hm)) he
+      cases e with
+      | sub a n =>
+        simp only [applyEff] at h1
+        split at h1
+        · simp at h1
+        · rename_i hge
+          simp at h1; subst h1
+          rw [subBalance_eq]; apply suiOk_putObj snd s a _ h
+          intro hs
+          unfold subF at hs ⊢
+          by_cases hz : n = 0
+          · simp only [hz, if_true] at hs ⊢; exact suiOk_objOrNew snd s a h hs
+          · simp only [hz, if_false] at hs ⊢
+            exact ⟨by omega, (suiOk_objOrNew snd s a h hs).2⟩
+      | add a n =>
+        simp only [applyEff, Option.some.injEq] at h1; subst h1
+        exact suiOk_addBalance snd s a n h (hadd a n List.mem_cons_self)
+      | suicide a =>
+        simp only [applyEff, Option.some.injEq] at h1; subst h1
+        have hne : a ≠ snd := by
+          intro e; subst e; exact hsnd List.mem_cons_self
+        unfold suicide
+        split
+        · exact h
+        · exact suiOk_putObj snd s a _ h (fun _ => ⟨by simp, hne⟩)
+
+theorem burntAt_nonneg (snd : Addr) (s : St) (hwf : WF s) (h : SuiOk snd s) : 0 ≤ burntAt s.cache := by
+  have key : ∀ c : List (Addr × Obj), (∀ p ∈ c, p.2.suicided = true → 0 ≤ p.2.bal) → 0 ≤ burntAt c := by
+    intro c
+    induction c with
+    | nil => intro _; simp [burntAt]
+    | cons hd t ih =>
+      intro hc
+      have h1 := hc hd (by simp)
+      have h2 := ih (fun p hp => hc p (List.mem_cons_of_mem _ hp))
+      simp only [burntAt]
+      by_cases hg : gone hd.2 = true
+      · simp only [hg, if_true]
+        by_cases hs : hd.2.suicided = true
+        · have := h1 hs; omega
+        · unfold gone isEmpty at hg
+          simp only [hs, Bool.false_or, Bool.and_eq_true, beq_iff_eq, Bool.not_eq_true'] at hg
+          omega
+      · simp only [hg, Bool.false_eq_true, if_false]; omega
+  apply key
+  intro p hp hs
+  exact (h p.1 p.2 (alookup_of_mem_nodup _ _ _ hp hwf) hs).1
+
+/-- when `TransitionDb` returns, a suicided object holds a non-negative balance -/
+theorem suiOk_transitionDb (env : Env) (s s1 : St) (tx : Tx) (vm : VmOut) (er : ExecResult)
+    (h0 : s.cache = []) (hadd : ∀ a n, Eff.add a n ∈ vm.effs → 0 ≤ n) (hsnd : Eff.suicide tx.sender ∉ vm.effs)
+    (h : transitionDb env s tx vm = some (s1, .ok er)) : SuiOk tx.sender s1 := by
+  obtain ⟨s2, gl, f, -, hr, -, -, rfl, rfl⟩ := transitionDb_ok env s s1 tx vm er h
+  have hb : NoSui (bought s tx) := noSui_subBalance s _ _ (noSui_of_empty s h0)
+  have hs2 : SuiOk tx.sender s2 := by
+    unfold runVm at hr
+    split at hr
+    · have hn0 := noSui_setNonce _ tx.sender (evmNonce (bought s tx) tx.sender + 1) hb
+      rcases evmCreate_cases env _ tx vm _ s2 gl f hr with
+        ⟨rfl, -⟩ | ⟨rfl, -⟩ | ⟨rfl, -⟩ | ⟨s3, he, rfl, -⟩
+      · exact suiOk_of_noSui _ _ hb
+      · exact suiOk_of_noSui _ _ hn0
+      · exact suiOk_of_noSui _ _ hn0
+      · have h3 := suiOk_applyEffs tx.sender _ s3 vm.effs
+          (suiOk_of_noSui _ _ (noSui_createPrep _ tx env.newAddr hn0)) hadd hsnd he
+        split
+        · exact suiOk_setCode _ s3 _ h3
+        · exact h3
+    · rename_i t _
+      have hn0 := noSui_setNonce _ tx.sender (evmNonce (bought s tx) tx.sender + 1) hb
+      rcases evmCall_cases _ tx t _ vm s2 gl f hr with
+        ⟨rfl, -⟩ | ⟨rfl, -⟩ | ⟨rfl, -⟩ | ⟨rfl, -⟩ | ⟨s3, he, rfl, -⟩
+      · exact suiOk_of_noSui _ _ hn0
+      · exact suiOk_of_noSui _ _ hn0
+      · exact suiOk_of_noSui _ _ (noSui_transfer _ _ _ _ (noSui_callPrep _ t hn0))
+      · exact suiOk_of_noSui _ _ hn0
+      · exact suiOk_applyEffs tx.sender _ s3 vm.effs
+          (suiOk_of_noSui _ _ (noSui_transfer _ _ _ _ (noSui_callPrep _ t hn0))) hadd hsnd he
+  -- the refund goes to the sender, whose object is not suicided
+  rw [addBalance_eq]
+  apply suiOk_putObj tx.sender s2 tx.sender _ hs2
+  intro hs
+  exfalso
+  unfold addF at hs
+  have hcontra : (objOrNew s2 tx.sender).suicided = true := by
+    by_cases hz : (gasFinal tx vm gl : Int) * tx.price = 0
+    · simp only [hz, if_true] at hs
+      by_cases he : isEmpty (objOrNew s2 tx.sender) = true
+      · simpa [he] using hs
+      · simpa [he] using hs
+    · simpa [hz] using hs
+  exact (suiOk_objOrNew tx.sender s2 tx.sender hs2 hcontra).2 rfl
+
+theorem noSui_setCode (s : St) (a : Addr) (h : NoSui s) : NoSui (setCode s a) := by
+  rw [setCode_eq]; exact noSui_putObj s a _ h (by simp [codeF, noSui_objOrNew s a h])
+
+theorem noSui_applyEffs (s s' : St) (l : List Eff) (h : NoSui s) (hn : noSuicide l = true)
+    (he : applyEffs s l = some s') : NoSui s' := by
+  induction l generalizing s with
+  | nil => simp [applyEffs] at he; subst he; exact h
+  | cons e t ih =>
+    simp only [applyEffs] at he
+    cases h1 : applyEff s e with
+    | none => simp [h1] at he
+    | some s1 =>
+      simp only [h1] at he
+      cases e with
+      | sub a n =>
+        simp only [applyEff] at h1
+        split at h1
+        · simp at h1
+        · simp at h1; subst h1
+          exact ih _ (noSui_subBalance s a n h) (by simpa [noSuicide] using hn) he
+      | add a n =>
+        simp only [applyEff, Option.some.injEq] at h1; subst h1
+        exact ih _ (noSui_addBalance s a n h) (by simpa [noSuicide] using hn) he
+      | suicide a => simp [noSuicide] at hn
+
+/-- without a surviving `Suicide` call no cached object is suicided when `TransitionDb` returns -/
+theorem noSui_transitionDb (env : Env) (s s1 : St) (tx : Tx) (vm : VmOut) (er : ExecResult)
+    (h0 : s.cache = []) (hn : noSuicide vm.effs = true)
+    (h : transitionDb env s tx vm = some (s1, .ok er)) : NoSui s1 := by
+  obtain ⟨s2, gl, f, -, hr, -, -, rfl, rfl⟩ := transitionDb_ok env s s1 tx vm er h
+  have hb : NoSui (bought s tx) := noSui_subBalance s _ _ (noSui_of_empty s h0)
+  have hn0 := noSui_setNonce _ tx.sender (evmNonce (bought s tx) tx.sender + 1) hb
+  have hs2 : NoSui s2 := by
+    unfold runVm at hr
+    split at hr
+    · rcases evmCreate_cases env _ tx vm _ s2 gl f hr with
+        ⟨rfl, -⟩ | ⟨rfl, -⟩ | ⟨rfl, -⟩ | ⟨s3, he, rfl, -⟩
+      · exact hb
+      · exact hn0
+      · exact hn0
+      · have h3 := noSui_applyEffs _ s3 vm.effs (noSui_createPrep _ tx env.newAddr hn0) hn he
+        split
+        · exact noSui_setCode s3 _ h3
+        · exact h3
+    · rename_i t _
+      rcases evmCall_cases _ tx t _ vm s2 gl f hr with
+        ⟨rfl, -⟩ | ⟨rfl, -⟩ | ⟨rfl, -⟩ | ⟨rfl, -⟩ | ⟨s3, he, rfl, -⟩
+      · exact hn0
+      · exact hn0
+      · exact noSui_transfer _ _ _ _ (noSui_callPrep _ t hn0)
+      · exact hn0
+      · exact noSui_applyEffs _ s3 vm.effs (noSui_transfer _ _ _ _ (noSui_callPrep _ t hn0)) hn he
+  exact noSui_addBalance s2 _ _ hs2
+
+/-- objects that are dropped without being suicided are empty: nothing is burnt -/
+theorem burntAt_zero_of_noSui (s : St) (hwf : WF s) (h : NoSui s) : burntAt s.cache = 0 := by
+  have key : ∀ c : List (Addr × Obj), (∀ p ∈ c, p.2.suicided = false) → burntAt c = 0 := by
+    intro c
+    induction c with
+    | nil => intro _; rfl
+    | cons hd t ih =>
+      intro hc
+      have h1 := hc hd (by simp)
+      have h2 := ih (fun p hp => hc p (List.mem_cons_of_mem _ hp))
+      simp only [burntAt, h2]
+      by_cases hg : gone hd.2 = true
+      · simp only [hg, if_true]
+        unfold gone isEmpty at hg
+        simp only [h1, Bool.false_or, Bool.and_eq_true, beq_iff_eq, Bool.not_eq_true'] at hg
+        omega
+      · simp [hg]
+  apply key
+  intro p hp
+  exact h p.1 p.2 (alookup_of_mem_nodup _ _ _ hp hwf)
+
+/-! ## the burnt amount of a whole transaction -/
+
+theorem burnt_of_ok (env : Env) (s s1 : St) (tx : Tx) (vm : VmOut) (er : ExecResult)
+    (hv : validate env s.w tx = none) (ht : transitionDb env s tx vm = some (s1, .ok er))
+    (hne : er.usedGas ≠ 0) (hle : (er.usedGas : Int) ≤ tx.gas) :
+    burnt env s tx vm = burntAt s1.cache := by
+  unfold burnt
+  rw [hv, ht]
+  simp only
+  have : ¬ (er.usedGas = 0 ∨ (er.usedGas : Int) > tx.gas) := by
+    intro h; rcases h with h | h
+    · exact hne h
+    · omega
+  rw [if_neg this]
+
+theorem burnt_of_refused (env : Env) (s s' : St) (tx : Tx) (vm : VmOut) (r : Resp)
+    (h : deliverOlvm env s tx vm = (s', r)) (hc : r.code ≠ 0) : burnt env s tx vm = 0 := by
+  unfold burnt
+  unfold deliverOlvm at h
+  cases hv : validate env s.w tx with
+  | some e => rfl
+  | none =>
+    rw [hv] at h
+    simp only at h ⊢
+    cases ht : transitionDb env s tx vm with
+    | none => rfl
+    | some res =>
+      obtain ⟨s1, rr⟩ := res
+      rw [ht] at h
+      simp only at h ⊢
+      cases rr with
+      | error e => rfl
+      | ok er =>
+        simp only at h ⊢
+        by_cases h1 : er.usedGas = 0
+        · simp [h1]
+        · rw [if_neg h1] at h
+          by_cases h2 : (er.usedGas : Int) > tx.gas
+          · simp [h2]
+          · rw [if_neg h2] at h
+            simp only [Prod.mk.injEq] at h
+            rw [← h.2] at hc; simp at hc
 
 end OLP.Olvm
